@@ -121,6 +121,9 @@ func ServeAgent(agent YubiAgent, c io.ReadWriter) error {
 		if err != nil {
 			return err
 		}
+		if len(req) == 0 {
+			return errors.New("yubiagent: empty request")
+		}
 
 		if yubiServer, ok := agent.(*server); ok {
 			if shimServer, ok := yubiServer.ShimAgent.(*shimagent.Server); ok {
@@ -197,6 +200,9 @@ func ServeAgent(agent YubiAgent, c io.ReadWriter) error {
 			}
 
 		case AgentMessageWait:
+			if len(req) < 2 {
+				return errors.New("yubiagent: wait request without a message code")
+			}
 			var writeErr error
 			if err = agent.Wait(req[1]); err != nil {
 				writeErr = write(c, []byte(err.Error()))
